@@ -243,6 +243,12 @@ pub fn run(ctx: &mut Ctx) {
             _ => gen::doc(&mut rng, &gen::DOC_FINITE),
         };
         check_one(ctx, &t);
+        if i % 2003 == 9 && !ctx.miri {
+            // a table whose rows hold empty arrays and objects: well over a thousand in all
+            let rows = 600 + rng.below(600);
+            let t2 = Tree::Arr((0..rows).map(|k| Tree::Obj(vec![("attrs".into(), Tree::Obj(vec![])), ("id".into(), Tree::Num(Num::U(k as u64))), ("tags".into(), Tree::Arr(vec![]))])).collect());
+            check_one(ctx, &t2);
+        }
         if i % 4 == 1 && t.nodes() < 300 {
             let args = super::routes::plain_args(&t, &mut rng);
             mon.check(ctx, &t, &t, &args, &mut rng);
